@@ -118,7 +118,11 @@ class ConverterFactory:
             return None
 
         if isinstance(value, list):
-            return " ".join(self.serialize(val, **kwargs) for val in value)
+            tokens = [self.serialize(val, **kwargs) for val in value]
+            if None in tokens:
+                raise ConverterError("A list of tokens can not contain `None`")
+
+            return " ".join(tokens)
 
         instance = self.value_converter(value)
         return instance.serialize(value, **kwargs)
